@@ -215,7 +215,7 @@ evaluating context). The model is a model of the repaired tree.
 
 ### 10.5 Seeded changes (`seeded/<id>/`: patch.diff, demo.py, meta.json) and the checks that catch them
 
-Round 1 (`-a`, `-b`), round 2 (`-c`, `-d`), round 3 (`-e`, `-f`), round 4 (`-g`, `-h`), round 5 (`-i`, `-j`), round 6 (`-k`, `-l`), round 7 (`-m`, `-n`), round 8 (`-o`, `-p`) and round 9 (`-q`, `-r`); (round 4: the sub-agents were told how the harness
+Round 1 (`-a`, `-b`), round 2 (`-c`, `-d`), round 3 (`-e`, `-f`), round 4 (`-g`, `-h`), round 5 (`-i`, `-j`), round 6 (`-k`, `-l`), round 7 (`-m`, `-n`), round 8 (`-o`, `-p`), round 9 (`-q`, `-r`) and round 10 (`-s`, `-t`); (round 4: the sub-agents were told how the harness
 works — reference interpreter, formal model, tens of thousands of generated programs — and asked for the corner it does not look
 into). Round 3: the sub-agents were asked for changes in shared
 infrastructure that break the property indirectly and only for particular values, orders, nesting shapes, option combinations,
@@ -349,6 +349,17 @@ group defined (C04-q: all values evaluated before any is stored); (6) *imports i
 the body assigns nothing (C06-r: an "assigned" flag that the import's hand-back does not set); (7) *parameter names that clash with
 the caller's variables* — a global, a loop counter, the caller's own parameters handed on in another order (C07-r: parameters bound
 before the caller's variables are copied in; `C07_bind_positional` states exactly this, the generators had avoided the clash).
+
+Round 10 (`-s`, `-t`, the ten properties of round 8 again with the round-9 brief, twenty changes) was first MISSED in four of twenty
+cases — the lowest rate so far. Built in: (1) *mutation INSIDE a class-level object* — the process-state description of C17 now looks
+into objects and containers (a `CompiledReturn` kept as a class attribute of BREAK_LOOP / CONTINUE_LOOP whose line list a later command
+extended in place has the same identity and the same default repr), and the C17 snippets include loops left or skipped before anything
+was output followed by commands whose result is a plain list of lines (C17-t); (2) *separator characters inside PRINT texts* (C18-t: the
+`splitlines` change C01 already catches, seen from C18); (3) *`$` forms whose expression evaluates to an empty, blank or otherwise odd
+string*, for every command of the palette, written out and through a variable — in the model's domain, so compared with the model too
+(C09-t: `$RUN " "` → ValueError from an unpacking split); (4) *chain arms whose body holds nothing but comments*, first true arm, with
+comments kept and dropped, at top level, in a loop, in a function called from a loop (C05-t: a comment-stripping pre-pass leaves an empty
+block, which the block commands read as "no block").
 
 | id | property | change | caught by |
 |---|---|---|---|
